@@ -22,6 +22,29 @@ def M(id_, file, old, new, props):
 
 
 MUTANTS = [
+    M('bulk-deletion-ascending-pops', S, "                        for shell in np.flatnonzero(self.shell_n == 0)[::-1]:\n                            self.bounds.pop(shell)\n                            self.points.pop(shell)\n                            self.log_l.pop(shell)\n                            if self.blobs is not None:\n                                self.blobs.pop(shell)\n                            for key in ['shell_n', 'shell_n_sample',\n                                        'shell_n_eff', 'shell_log_l_min',\n                                        'shell_log_l', 'shell_log_v']:\n                                setattr(self, key, np.delete(\n                                    getattr(self, key), shell))\n", "                        empty = np.flatnonzero(self.shell_n == 0)\n                        for shell in empty:\n                            self.bounds.pop(shell)\n                            self.points.pop(shell)\n                            self.log_l.pop(shell)\n                            if self.blobs is not None:\n                                self.blobs.pop(shell)\n                        for key in ['shell_n', 'shell_n_sample',\n                                    'shell_n_eff', 'shell_log_l_min',\n                                    'shell_log_l', 'shell_log_v']:\n                            setattr(self, key, np.delete(\n                                getattr(self, key), empty))\n", 'C12 C02'),
+    # ---------------- vectorised rewrites of the phase shift
+    M('compute-vectorised-global-max', PS, '        bound.centers = np.zeros(len(periodic))\n\n        for i, dim in enumerate(periodic):\n            x = np.sort(points[:, dim])\n            dx = np.append(np.diff(x), x[0] - (x[-1] - 1))\n            bound.centers[i] = (\n                x[np.argmax(dx)] + np.amax(dx) / 2.0 + 0.5) % 1\n', '        x = np.sort(points[:, periodic], axis=0)\n        dx = np.append(np.diff(x, axis=0), x[:1] - (x[-1:] - 1), axis=0)\n        i_max = np.argmax(dx, axis=0)[np.newaxis]\n        bound.centers = (\n            np.take_along_axis(x, i_max, axis=0)[0] + np.amax(dx) / 2.0 +\n            0.5) % 1\n', 'C16'),
+    M('compute-vectorised-sort-rows', PS, '        bound.centers = np.zeros(len(periodic))\n\n        for i, dim in enumerate(periodic):\n            x = np.sort(points[:, dim])\n            dx = np.append(np.diff(x), x[0] - (x[-1] - 1))\n            bound.centers[i] = (\n                x[np.argmax(dx)] + np.amax(dx) / 2.0 + 0.5) % 1\n', '        x = np.sort(points[:, periodic])\n        dx = np.append(np.diff(x, axis=0), x[:1] - (x[-1:] - 1), axis=0)\n        i_max = np.argmax(dx, axis=0)[np.newaxis]\n        bound.centers = (\n            np.take_along_axis(x, i_max, axis=0)[0] + np.amax(dx, axis=0) / 2.0 +\n            0.5) % 1\n', 'C16'),
+    M('transform-vectorised-single-mod', PS, '        for i, dim in enumerate(self.periodic):\n            points_t[:, dim] = (points_t[:, dim] + (-1 if inverse else +1) *\n                                (-self.centers[i] + 0.5)) % 1\n            # The modulo of a tiny negative number rounds to exactly 1.\n            points_t[:, dim] = points_t[:, dim] % 1\n', '        points_t[:, self.periodic] = (\n            points_t[:, self.periodic] + (-1 if inverse else +1) *\n            (-self.centers + 0.5)) % 1\n', 'C16'),
+    M('transform-whole-array-mod', PS, '        for i, dim in enumerate(self.periodic):\n            points_t[:, dim] = (points_t[:, dim] + (-1 if inverse else +1) *\n                                (-self.centers[i] + 0.5)) % 1\n            # The modulo of a tiny negative number rounds to exactly 1.\n            points_t[:, dim] = points_t[:, dim] % 1\n', '        shift = np.zeros(points_t.shape[-1])\n        shift[self.periodic] = (-1 if inverse else +1) * (-self.centers + 0.5)\n        points_t = (points_t + shift) % 1\n        points_t = points_t % 1\n', 'C16 C07'),
+    # ---------------- volume algebra (rule V2)
+    M('volume-det-of-inverse', B, "np.linalg.slogdet(self.B)[1]", "np.linalg.slogdet(self.B_inv)[1]",
+      'C08 C07'),
+    M('volume-half-log-two', B, "self.n_dim * np.log(2.) +", "self.n_dim * np.log(2.) / 2 +",
+      'C08'),
+    M('volume-gamma-argument', B, "gammaln(self.n_dim / 2.0 + 1))", "gammaln(self.n_dim / 2.0))",
+      'C08'),
+    M('radius-exponent-off', B, "            1.0 / self.n_dim)", "            1.0 / (self.n_dim + 1))",
+      'C08 C07'),
+    M('forward-matrix-not-inverse', B, "bound.B_inv = np.linalg.inv(bound.B)",
+      "bound.B_inv = np.linalg.inv(bound.A)", 'C08 C07'),
+    M('union-fraction-off-by-one', U, "            1.0 - self.n_reject / self.n_sample)",
+      "            1.0 - self.n_reject / (self.n_sample + 1))", 'C08'),
+    M('nautilus-volume-rejected-fraction', N,
+      "        return self.outer_bound.log_v + np.log(\n            1.0 - self.n_reject / self.n_sample)",
+      "        return self.outer_bound.log_v + np.log(\n            self.n_reject / self.n_sample)",
+      'C08'),
     # ---------------- estimator algebra (rule E)
     M('mean-likelihood-over-proposals', S,
       "self.shell_log_l[index] = logsumexp(log_l) - np.log(shell_n)",
@@ -863,6 +886,22 @@ def _extract_ctor_helper(src):
     return src.replace("    def reset(self, rng=None):", helper + "    def reset(self, rng=None):", 1)
 
 
+def _shared_key_list(src):
+    """The per-shell statistic keys move into a module-level list that the incremental
+    checkpoint update unpacks into its own key list."""
+    old = ("        for key in ['n_like', '_discard_exploration', 'shell_n',\n"
+           "                    'shell_n_sample', 'shell_n_eff', 'shell_log_l_min',\n"
+           "                    'shell_log_l', 'shell_log_v', 'n_update_iter',\n"
+           "                    'n_like_iter']:")
+    if old not in src or "\nclass Sampler" not in src:
+        return src
+    src = src.replace(old, "        for key in ['n_like', '_discard_exploration', 'n_update_iter',\n"
+                           "                    'n_like_iter', *SHELL_KEYS]:", 1)
+    const = ("SHELL_KEYS = ['shell_n', 'shell_n_sample', 'shell_n_eff', 'shell_log_l_min',\n"
+             "              'shell_log_l', 'shell_log_v']\n\n\n")
+    return src.replace("\nclass Sampler", "\n" + const + "class Sampler", 1)
+
+
 BENIGN += [
     dict(id='extract-removal-helper', file=S, old="if np.any(self.shell_n == 0):", new=None,
          fn=_extract_removal_helper, props=ALL.split()),
@@ -928,6 +967,21 @@ BENIGN += [
          props=ALL.split()),
     dict(id='weights-normalised-in-place', file=S, old="        log_w = log_w - logsumexp(log_w)",
          new="        log_w -= logsumexp(log_w)", props=ALL.split()),
+    dict(id='volume-half-n-log-pi', file=B,
+         old="self.n_dim * np.log(2.) +\n                self.n_dim * gammaln(1.5)",
+         new="self.n_dim / 2 * np.log(np.pi)", props=ALL.split()),
+    dict(id='union-fraction-as-quotient', file=U,
+         old="            1.0 - self.n_reject / self.n_sample)",
+         new="            (self.n_sample - self.n_reject) / self.n_sample)", props=ALL.split()),
+    dict(id='direction-by-linalg-norm', file=B,
+         old="points = points / np.sqrt(np.sum(points**2, axis=1))[:, np.newaxis]",
+         new="points /= np.linalg.norm(points, axis=1)[:, np.newaxis]", props=ALL.split()),
+    dict(id='compute-vectorised', file=PS, old='        bound.centers = np.zeros(len(periodic))\n\n        for i, dim in enumerate(periodic):\n            x = np.sort(points[:, dim])\n            dx = np.append(np.diff(x), x[0] - (x[-1] - 1))\n            bound.centers[i] = (\n                x[np.argmax(dx)] + np.amax(dx) / 2.0 + 0.5) % 1\n', new='        x = np.sort(points[:, periodic], axis=0)\n        dx = np.append(np.diff(x, axis=0), x[:1] - (x[-1:] - 1), axis=0)\n        i_max = np.argmax(dx, axis=0)[np.newaxis]\n        bound.centers = (\n            np.take_along_axis(x, i_max, axis=0)[0] + np.amax(dx, axis=0) / 2.0 +\n            0.5) % 1\n', props=ALL.split()),
+    dict(id='transform-vectorised', file=PS, old='        for i, dim in enumerate(self.periodic):\n            points_t[:, dim] = (points_t[:, dim] + (-1 if inverse else +1) *\n                                (-self.centers[i] + 0.5)) % 1\n            # The modulo of a tiny negative number rounds to exactly 1.\n            points_t[:, dim] = points_t[:, dim] % 1\n', new='        points_t[:, self.periodic] = (\n            points_t[:, self.periodic] + (-1 if inverse else +1) *\n            (-self.centers + 0.5)) % 1\n        points_t[:, self.periodic] = points_t[:, self.periodic] % 1\n', props=ALL.split()),
+    dict(id='shared-key-list', file=S, old="for key in ['n_like', '_discard_exploration', 'shell_n',",
+         new=None, fn=_shared_key_list, props=ALL.split()),
+    dict(id='bulk-deletion-of-statistics', file=S, old="                        for shell in np.flatnonzero(self.shell_n == 0)[::-1]:\n                            self.bounds.pop(shell)\n                            self.points.pop(shell)\n                            self.log_l.pop(shell)\n                            if self.blobs is not None:\n                                self.blobs.pop(shell)\n                            for key in ['shell_n', 'shell_n_sample',\n                                        'shell_n_eff', 'shell_log_l_min',\n                                        'shell_log_l', 'shell_log_v']:\n                                setattr(self, key, np.delete(\n                                    getattr(self, key), shell))\n",
+         new="                        empty = np.flatnonzero(self.shell_n == 0)\n                        for shell in empty[::-1]:\n                            self.bounds.pop(shell)\n                            self.points.pop(shell)\n                            self.log_l.pop(shell)\n                            if self.blobs is not None:\n                                self.blobs.pop(shell)\n                        for key in ['shell_n', 'shell_n_sample',\n                                    'shell_n_eff', 'shell_log_l_min',\n                                    'shell_log_l', 'shell_log_v']:\n                            setattr(self, key, np.delete(\n                                getattr(self, key), empty))\n", props=ALL.split()),
     dict(id='with-statement', file=S, old="fstream = h5py.File(filepath_tmp, 'w')", new=None,
          fn=_with_statement, props=ALL.split()),
     dict(id='guard-clause-trim', file=U, old="            return False\n\n    def contains",
